@@ -487,4 +487,77 @@ theorem fixedToFp_zero (f : Fmt) (hf : GoodFmt f) : fixedToFp f 0 = .fin false 0
   unfold FP.div
   simp [hq0]
 
+/-- the rounding of a quotient does not change when numerator and denominator are multiplied by the same factor -/
+theorem rnd_mul (a b m : Nat) (hm : 0 < m) (hb : 0 < b) : rnd (a * m) (b * m) = rnd a b := by
+  unfold rnd
+  rw [Nat.mul_div_mul_right a b hm, Nat.mul_mod_mul_right]
+  have hc : compare (2 * (a % b * m)) (b * m) = compare (2 * (a % b)) b := by
+    rcases Nat.lt_trichotomy (2 * (a % b)) b with h | h | h
+    · rw [Nat.compare_eq_lt.mpr h, Nat.compare_eq_lt]
+      have := Nat.mul_lt_mul_of_pos_right h hm
+      nlinarith
+    · rw [Nat.compare_eq_eq.mpr h, Nat.compare_eq_eq]
+      have : 2 * (a % b * m) = (2 * (a % b)) * m := by ring
+      rw [this, h]
+    · rw [Nat.compare_eq_gt.mpr h, Nat.compare_eq_gt]
+      have := Nat.mul_lt_mul_of_pos_right h hm
+      nlinarith
+  rw [hc]
+
+theorem ratLog2_unique (num den : Nat) (hn : 0 < num) (hd : 0 < den) (L : ℤ)
+    (h1 : (2 : ℝ) ^ L ≤ (num : ℝ) / den) (h2 : (num : ℝ) / den < (2 : ℝ) ^ (L + 1)) : ratLog2 num den = L := by
+  obtain ⟨s1, s2⟩ := ratLog2_spec num den hn hd
+  have a := two_zpow_lt _ _ (lt_of_le_of_lt h1 s2)
+  have b := two_zpow_lt _ _ (lt_of_le_of_lt s1 h2)
+  omega
+
+/-- scaling the denominator by `2^k` shifts the exponent and keeps the mantissa (normal range, no overflow) -/
+theorem roundRat_scale (f : Fmt) (neg : Bool) (num den k : Nat) (hn : 0 < num) (hd : 0 < den)
+    (hnorm : f.emin ≤ ratLog2 num den - (k : ℤ) - (f.p : ℤ) + 1) (hov : ratLog2 num den - (f.p : ℤ) + 1 < f.emax) :
+    ∃ q : Nat, roundRat f neg num den = .fin neg q (ratLog2 num den - (f.p : ℤ) + 1) ∧
+      roundRat f neg num (den * 2 ^ k) = .fin neg q (ratLog2 num den - (f.p : ℤ) + 1 - (k : ℤ)) := by
+  set L := ratLog2 num den with hL
+  have hd' : 0 < den * 2 ^ k := by positivity
+  obtain ⟨s1, s2⟩ := ratLog2_spec num den hn hd
+  have hdr : (0 : ℝ) < (den : ℝ) := by exact_mod_cast hd
+  have hL' : ratLog2 num (den * 2 ^ k) = L - (k : ℤ) := by
+    apply ratLog2_unique num (den * 2 ^ k) hn hd'
+    · push_cast
+      rw [zpow_sub₀ (by norm_num), zpow_natCast, ← div_div]
+      exact div_le_div_of_nonneg_right s1 (by positivity)
+    · push_cast
+      rw [show L - (k : ℤ) + 1 = L + 1 - (k : ℤ) by ring, zpow_sub₀ (by norm_num), zpow_natCast, ← div_div]
+      exact div_lt_div_of_pos_right s2 (by positivity)
+  have hpe : pickExp f L = L - (f.p : ℤ) + 1 := by unfold pickExp; exact max_eq_left (by omega)
+  have hpe' : pickExp f (L - (k : ℤ)) = L - (k : ℤ) - (f.p : ℤ) + 1 := by unfold pickExp; exact max_eq_left (by omega)
+  have r1 := roundRat_fin f neg num den hn (by rw [← hL, hpe]; exact hov)
+  have r2 := roundRat_fin f neg num (den * 2 ^ k) hn (by rw [hL', hpe']; omega)
+  rw [← hL, hpe] at r1
+  rw [hL', hpe'] at r2
+  refine ⟨_, r1, ?_⟩
+  rw [r2, show L - (k : ℤ) - (f.p : ℤ) + 1 = L - (f.p : ℤ) + 1 - (k : ℤ) by ring]
+  congr 1
+  -- the two scaled pairs differ by a common power of two
+  set E := L - (f.p : ℤ) + 1 with hE
+  unfold scN scD
+  by_cases c1 : E - (k : ℤ) ≥ 0
+  · have c0 : E ≥ 0 := by omega
+    rw [if_pos c1, if_pos c1, if_pos c0, if_pos c0, pow2_eq, pow2_eq]
+    have : den * 2 ^ k * 2 ^ (E - (k : ℤ)).toNat = den * 2 ^ E.toNat := by
+      rw [mul_assoc, ← pow_add]; congr 2; omega
+    rw [this]
+  · rw [if_neg c1, if_neg c1]
+    by_cases c0 : E ≥ 0
+    · rw [if_pos c0, if_pos c0, pow2_eq, pow2_eq]
+      have e1 : den * 2 ^ k = (den * 2 ^ E.toNat) * 2 ^ (-(E - (k : ℤ))).toNat := by
+        rw [mul_assoc, ← pow_add]; congr 2; omega
+      rw [e1]
+      exact rnd_mul _ _ _ (by positivity) (by positivity)
+    · rw [if_neg c0, if_neg c0, pow2_eq, pow2_eq]
+      have e1 : num * 2 ^ (-(E - (k : ℤ))).toNat = (num * 2 ^ (-E).toNat) * 2 ^ k := by
+        rw [mul_assoc, ← pow_add]; congr 2; omega
+      rw [e1]
+      exact rnd_mul _ _ _ (by positivity) hd
+
+
 end FixedMath.R
